@@ -431,6 +431,7 @@ inline bool build_zone(const Footer& f, int kind, int version, GenZone* out, Gen
       const long long R = static_cast<long long>(secs_from_civil(Civil{2000, 1, 1, ov ? 0 : 5, ov ? 30 : 0, 0})) - oo;
       const TType after = regime(R);
       if (after.off != S || after.dst) return false;   // the footer must be in its standard regime at New Year
+      if (away_from_rule(R) != R) { st->filtered_spacing++; return false; }   // a rule transition within days of R: civil times would cross
       push(R, after);
       break;
     }
